@@ -104,4 +104,19 @@ let run_oracle () =
   out_bool (SemDecide.prog_can_fall_off p);
   out_list out_int (sorted_ns (SemDecide.prog_reach p))
 
-let () = main [("analyze", run_analyze); ("oracle", run_oracle)]
+(* ghost analyzer against the map-based one: states equal, logged flags / list-element reasons = map entries,
+   reason of the body block = entry of the body *)
+let run_ghost () =
+  let fx = read_fixes () in
+  let p = read_program () in
+  let st = Analyzer.analyze_st fx p in
+  let ((stg, r), lg) = AnalyzerG.analyzeG fx p in
+  let i = st.Analyzer.info in
+  let find k = try Some (L.assoc k i) with Not_found -> None in
+  out_bool (st = stg);
+  out_bool (L.for_all (function
+    | AnalyzerG.GFlag (k, b) -> (match find k with Some m -> m.Analyzer.m_unreach = b | None -> false)
+    | AnalyzerG.GTop (k, e) -> (match find k with Some m -> m.Analyzer.m_end = e | None -> false)) lg);
+  out_bool ((match find p.Syntax.p_pb with Some m -> m.Analyzer.m_end | None -> None) = r)
+
+let () = main [("analyze", run_analyze); ("oracle", run_oracle); ("ghost", run_ghost)]
